@@ -164,6 +164,16 @@ fn whole_files() {
                 variants.push(format!("{}{}{}", &pl[..pos], repl, &pl[pos + 1..]));
             }
         }
+        // numbers beyond every limit in place of a number of the list (reals, decimal / octal / hex integers, characters)
+        if !pl.is_empty() {
+            let hits: Vec<(usize, &str)> = [" R ", " D ", " O ", " H ", " C "].iter().flat_map(|pat| pl.match_indices(pat).map(|(i, m)| (i, m)).collect::<Vec<_>>()).collect();
+            if !hits.is_empty() {
+                let (i, m) = hits[r.below(hits.len() as u64) as usize];
+                let end = pl[i + m.len()..].find(|c: char| c == ')' || c == ' ' || c == '\n').map(|e| i + m.len() + e).unwrap_or(pl.len());
+                let big = ["R 3000000000.5", "R -99999999999999999999.99999999999999999999", "R 2047.9999999", "R 2048", "R .", "R -", "D 99999999999", "D 256", "O 777777777777", "O 8", "H FFFFFFFFF", "H G", "C é", "C", "R 1e5", "D -1"][r.below(16) as usize];
+                variants.push(format!("{} {}{}", &pl[..i], big, &pl[end..]));
+            }
+        }
         for v in variants {
             texts += 1;
             let v2 = v.clone();
